@@ -115,6 +115,11 @@ func parseLimits(c *casket.Controller) ([]httpserver.PathLimit, error) {
 		return nil, c.ArgErr()
 	}
 
+	if c.Next() {
+		// only the first limits directive of a site was ever read; a limit must not be dropped without a word
+		return nil, c.Err("limits may be given only once per site: put all header and body limits into one block")
+	}
+
 	if headerLimit != "" {
 		size := parseSize(headerLimit)
 		if size < 1 { // also disallow size = 0
